@@ -32,17 +32,17 @@ func init() {
 func runC15(w *mon.Worker) {
 	mon.SetMaxSleep(120 * time.Microsecond)
 	mon.SetProb(0.25, verifhook.BcastEnter, verifhook.BcastExit, verifhook.CContainerBlock)
-	for i := 0; i < w.Share(w.Scale(8000, 200000)); i++ {
+	for i := 0; i < w.Share(w.Scale(8000, 600000)); i++ {
 		w.Case("register-history", nil, ccRegisterCase)
 	}
 	for i := 0; i < w.Share(w.Scale(128, 4000)); i++ {
 		w.Case("swap-conservation", nil, ccSwapConservationCase)
 	}
-	for i := 0; i < w.Share(w.Scale(12000, 300000)); i++ {
+	for i := 0; i < w.Share(w.Scale(12000, 1200000)); i++ {
 		w.Case("waiters", nil, ccWaitersCase)
 	}
 	mon.ClearProb()
-	for i := 0; i < w.Share(w.Scale(1600, 30000)); i++ {
+	for i := 0; i < w.Share(w.Scale(1600, 120000)); i++ {
 		w.Case("gated", nil, ccGatedCase)
 	}
 }
